@@ -383,7 +383,7 @@ def gen(tier):
     W = AB.with_shapes
     L = W(leaves())
     info = {"leaves": len(L)}
-    l1 = AB.grow([L], unary=C05_UNARY, binary=C05_BINARY, ternary=AB.TERNARY, ternary_pool=L[9:9 + 10] if tier == "quick" else L[5:25])
+    l1 = AB.grow([L], unary=C05_UNARY, binary=C05_BINARY, ternary={k: AB.TERNARY[k] for k in ("Kronecker3", "KronSum3")}, ternary_pool=L[9:9 + 10] if tier == "quick" else L[5:25])
     l1r = AB.grow([L], unary=C05_UNARY_R, binary=C05_BINARY_R)
     quick_partners = [L[i] for i in (9, 10, 15, 16, 21, 24, 30, 31, 35, 37)]
     keep = {repr(t) for t, _ in (quick_partners if tier == "quick" else L)}
